@@ -549,6 +549,10 @@ pub fn run(ctx: &Ctx) -> i32 {
         Ok(())
     });
     rep.add(out);
+    // thorough: coverage-guided campaign (libFuzzer) over the same in-target oracle
+    if ctx.tier == Tier::Thorough && std::env::var("VERIF_NO_FUZZ").is_err() {
+        fuzz_campaign(ctx, &mut rep);
+    }
     // witnesses
     rep.replay_witnesses(&ctx.findings, &|w| witness(w));
     rep.extra.insert("gates_off".into(), json!(off));
@@ -559,6 +563,113 @@ pub fn run(ctx: &Ctx) -> i32 {
     ];
     rep.wall_s = clock.secs();
     rep.finish()
+}
+
+/// Builds and runs the cargo-fuzz target `total` for a wall-clock budget (a budget hit ends the
+/// campaign; it is never a violation).  Crash artefacts become violations with a replay file.
+fn fuzz_campaign(ctx: &Ctx, rep: &mut Report) {
+    let root = verif_root();
+    let budget: u64 = std::env::var("VERIF_FUZZ_SECONDS").ok().and_then(|s| s.parse().ok()).unwrap_or(240);
+    let build = Command::new("cargo")
+        .args(["+nightly", "fuzz", "build", "--fuzz-dir"])
+        .arg(root.join("fuzz"))
+        .args(["-s", "none", "total"])
+        .current_dir(root.join("harness"))
+        .env("CARGO_NET_OFFLINE", "true")
+        .env("RUST_BACKTRACE", "0")
+        .output();
+    let ok = matches!(&build, Ok(o) if o.status.success());
+    if !ok {
+        let msg = build.map(|o| String::from_utf8_lossy(&o.stderr).lines().rev().take(5).collect::<Vec<_>>().join(" | ")).unwrap_or_else(|e| e.to_string());
+        rep.infra_errors.push(format!("cargo +nightly fuzz build failed: {}", msg));
+        return;
+    }
+    let bin = root.join(".build/h/x86_64-unknown-linux-gnu/release/total");
+    let work = crate::drive::Scratch::new("fuzz");
+    let corpus_dir = work.path.join("corpus");
+    let arts = work.path.join("artifacts");
+    std::fs::create_dir_all(&corpus_dir).unwrap();
+    std::fs::create_dir_all(&arts).unwrap();
+    for (i, text) in corpus().iter().enumerate() {
+        let _ = std::fs::write(corpus_dir.join(format!("fixture{}", i)), text.as_bytes());
+    }
+    for k in 0..300u64 {
+        let tape = crate::tape::derived(&mix(ctx.seed ^ k.wrapping_mul(0xABCD)).to_le_bytes(), 64 + (k as usize % 8) * 100);
+        let _ = std::fs::write(corpus_dir.join(format!("tape{}", k)), &tape);
+    }
+    let jobs = ctx.threads.max(1);
+    let out = Command::new(&bin)
+        .arg(&corpus_dir)
+        .args([
+            format!("-max_total_time={}", budget),
+            format!("-jobs={}", jobs),
+            format!("-workers={}", jobs),
+            "-len_control=0".into(),
+            "-max_len=8192".into(),
+            format!("-seed={}", ctx.seed.max(1)),
+            "-print_final_stats=1".into(),
+            format!("-artifact_prefix={}/", arts.to_string_lossy()),
+        ])
+        .current_dir(&work.path)
+        .env("VERIF_ROOT", &root)
+        .env("RUST_BACKTRACE", "0")
+        .output();
+    let mut execs: u64 = 0;
+    if let Ok(rd) = std::fs::read_dir(&work.path) {
+        for e in rd.filter_map(|e| e.ok()) {
+            let n = e.file_name().to_string_lossy().to_string();
+            if n.starts_with("fuzz-") && n.ends_with(".log") {
+                if let Ok(t) = std::fs::read_to_string(e.path()) {
+                    for l in t.lines() {
+                        if let Some(v) = l.strip_prefix("stat::number_of_executed_units:") {
+                            execs += v.trim().parse::<u64>().unwrap_or(0);
+                        }
+                    }
+                }
+            }
+        }
+    }
+    let _ = out;
+    rep.stats.class_n("fuzz.executions", execs);
+    rep.stats.evaluations += execs;
+    rep.extra.insert("libfuzzer".into(), json!({"executions": execs, "seconds": budget, "jobs": jobs, "seed_corpus": "repository fixtures + 300 choice tapes"}));
+    if let Ok(rd) = std::fs::read_dir(&arts) {
+        for e in rd.filter_map(|e| e.ok()) {
+            let n = e.file_name().to_string_lossy().to_string();
+            if n.starts_with("crash-") || n.starts_with("oom-") || n.starts_with("timeout-") {
+                let bytes = std::fs::read(e.path()).unwrap_or_default();
+                if n.starts_with("crash-") {
+                    // confirm outside the fuzzer before believing it
+                    if let Err(why) = fuzz_input_holds(&bytes) {
+                        rep.failures.push((Failure::new("fuzz", "crash", why, json!({"bytes": bytes, "artifact": n})), vec![]));
+                    } else {
+                        rep.stats.inconclusive += 1;
+                    }
+                } else {
+                    rep.stats.inconclusive += 1;
+                }
+            }
+        }
+    }
+}
+
+/// the fuzz target's oracle, outside the fuzzer: both views of the bytes through a worker
+fn fuzz_input_holds(bytes: &[u8]) -> Result<(), String> {
+    let text = match std::str::from_utf8(bytes) {
+        Ok(s) => s.to_string(),
+        Err(_) => bytes.iter().map(|&b| b as char).collect(),
+    };
+    let gates = Gates::all_on();
+    let (gen, _) = gen_input(&mut Tape::new(bytes), &gates);
+    for t in [text, gen] {
+        witness(&json!({"text": t}))?;
+        if let Err((kind, detail)) = crate::props::c05::check_tiling(&t) {
+            if ["panic", "token-span", "overlap", "gap", "token-text"].contains(&kind.as_str()) {
+                return Err(format!("{}: {}", kind, detail));
+            }
+        }
+    }
+    Ok(())
 }
 
 /// witness {"kind":"no_panic","text":..}
@@ -575,7 +686,10 @@ pub fn witness(w: &Value) -> Result<(), String> {
 pub fn replay(ctx: &Ctx, v: &Value) -> i32 {
     let text = v["inputs"]["text"].as_str().unwrap_or("");
     // strict mode: no panic is tolerated on replay
-    let r = if v["check"] == "binary" {
+    let r = if v["check"] == "fuzz" {
+        let bytes: Vec<u8> = v["inputs"]["bytes"].as_array().map(|a| a.iter().map(|x| x.as_u64().unwrap_or(0) as u8).collect()).unwrap_or_default();
+        fuzz_input_holds(&bytes)
+    } else if v["check"] == "binary" {
         let dir = crate::drive::Scratch::new("c04r");
         let p = dir.write("in.st", text.as_bytes()).to_string_lossy().to_string();
         let cmd = v["inputs"]["command"].as_str().unwrap_or("check");
